@@ -529,7 +529,7 @@ UNRELATED_V2_LINES = [
     ["M  UNS  1   1   1"],
     ["M  RBC  1   1   2"],
     ["M  LIN  1   1   2   1   1"],
-    ["S  SKP  1", "M  CHG this line is skipped"],
+    ["S  SKP  1", "this line is skipped"],
 ]
 
 
